@@ -250,7 +250,84 @@ def threaded_under_scheduler(ctx):
     S.explore_random(make, tg, ctx.budget(80, 5000), ctx.rng, on_run, step_budget=300000)
 
 
+def callbacks_that_use_intercepted_inputs(ctx):
+    """User callbacks the framework runs while it builds a key - the alias parameter resolver, a fallback-aliases function - are service
+    code: when they read another intercepted input (a property of the account, a lookup), that read is an interception of the operation
+    like any other. Recorded once, replayed against a live system that answers differently: every answer comes from the recording."""
+    from playback.tape_recorder import TapeRecorder
+    for kind in KINDS[:3]:
+        for variant in ('resolver_reads_property', 'resolver_reads_input', 'fallback_function_reads_input'):
+            with open_box(kind) as box:
+                rec = TapeRecorder(box.cassette)
+                rec.enable_recording()
+                live = {'region': 'eu', 'tier': 'gold', 'bodies': 0}
+
+                class Account(object):
+                    @property
+                    @rec.intercept_input('account.region')
+                    def region(self):
+                        live['bodies'] += 1
+                        return live['region']
+
+                    @rec.intercept_input('account.tier')
+                    def tier(self):
+                        live['bodies'] += 1
+                        return live['tier']
+
+                if variant == 'resolver_reads_property':
+                    deco = rec.intercept_input('rates.{region}', alias_params_resolver=lambda self, account, product: {'region': account.region})
+                elif variant == 'resolver_reads_input':
+                    deco = rec.intercept_input('rates.{tier}', alias_params_resolver=lambda self, account, product: {'tier': account.tier()})
+                else:
+                    deco = rec.intercept_input('rates.current', fallback_aliases=lambda self, account, product: ['rates.' + account.tier()])
+
+                class Pricing(object):
+                    @deco
+                    def rate(self, account, product):
+                        live['bodies'] += 1
+                        return {'product': product, 'rate': len(live['region']) + len(live['tier'])}
+
+                    @rec.intercept_output('pricing.publish')
+                    def publish(self, quote):
+                        return 'published'
+
+                    @rec.operation()
+                    def quote(self, product):
+                        account = Account()
+                        r1 = self.rate(account, product)
+                        r2 = self.rate(account, product + '-bulk')
+                        self.publish([r1, r2])
+                        return [r1, r2]
+                recorded = Pricing().quote('widget')
+                rid = (box.cassette.get_last_recording_id() if kind == 'memory' else None)
+                if rid is None:
+                    ids = list(box.reader().iter_recording_ids('Pricing'))
+                    rid = ids[0] if len(ids) == 1 else None
+                w = {'callbacks_using_inputs': variant, 'cassette': kind}
+                ctx.case(w)
+                ctx.count('callback_interception_cases')
+                if rid is None:
+                    ctx.violation('operation whose key callbacks read intercepted inputs was not saved exactly once', w)
+                    continue
+                live.update(region='us', tier='basic', bodies=0)        # the live system answers differently now
+                rec.tape_cassette = box.reader()
+                try:
+                    pb = rec.play(rid, lambda recording: Pricing().quote('widget'))
+                except BaseException as ex:  # noqa
+                    ctx.violation('replay of a complete recording on unchanged code failed with %s' % type(ex).__name__, dict(w, error=repr(ex)[:200]))
+                    continue
+                ctx.count('calls_compared', 2)
+                if live['bodies']:
+                    ctx.violation('a wrapped body was executed during replay', dict(w, bodies=live['bodies']))
+                ro = [o.value for o in pb.recorded_outputs if 'pricing.publish' in o.key]
+                po = [o.value for o in pb.playback_outputs if 'pricing.publish' in o.key]
+                if not ro or not teq(ro, po) or ro[0]['args'][0] != recorded:
+                    ctx.violation('playback output differs from recorded output on unchanged code', dict(w, recorded=repr(ro)[:200], playback=repr(po)[:200]))
+
+
 def run(ctx):
+    if ctx.shard == 0:
+        callbacks_that_use_intercepted_inputs(ctx)
     threaded_under_scheduler(ctx)
     n = ctx.budget(400, 20000)
     base = ctx.seed * 1000003 + ctx.shard * 1000000
@@ -266,6 +343,8 @@ def run(ctx):
 
 
 def replay(ctx, w):
+    if w.get('callbacks_using_inputs'):
+        return callbacks_that_use_intercepted_inputs(ctx)
     if w.get('reused_buffer'):
         return run_case(ctx, w['case_seed'], w.get('cassette'), prog=reused_buffer_program(w['case_seed']), world_cls=BufferWorld)
     run_case(ctx, w['case_seed'], w.get('cassette'))
